@@ -1,10 +1,11 @@
 (* C06 - synchronous dynamics applies independent per-element trials each timestep.
-   Statements only; proofs are in Proofs/KernelSync.v and Proofs/Binomial.v.
+   Statements only; proofs are in Proofs/KernelSync.v, Proofs/Binomial.v, Proofs/KernelSyncLaw.v and
+   Proofs/KernelSyncLawAll.v.
    For every world type W, every table (arbitrary user programs), every oracle, every fuel.
    Level note: the probability laws are about [trial p] = {true: p, false: 1-p}; that a uniform
    variate r satisfies r <= p with probability p is the (unproved) reading of the oracle. *)
 From Coq Require Import List ZArith QArith Bool Arith.
-From EpyV Require Import Lib.Prelude Model.Kernel Model.Compart Proofs.KernelMember Proofs.KernelSync Proofs.Binomial Proofs.KernelSyncLaw.
+From EpyV Require Import Lib.Prelude Model.Kernel Model.Compart Proofs.KernelMember Proofs.KernelSync Proofs.Binomial Proofs.KernelSyncLaw Proofs.KernelSyncLawAll.
 Import ListNotations.
 Open Scope Q_scope.
 
@@ -217,8 +218,8 @@ Theorem C06_step_is_tranche_step : forall W (tb : table W) pf t (s : st W),
   tranche_step tb t (fst (run_pending tb pf t 0 (set_clock t s))) (set_clock t (snd (run_pending tb pf t 0 (set_clock t s)))).
 Proof. exact (@sync_step_tranche_step). Qed.
 
-(* Partial (general tables are covered by the Examples below and by the exact enumeration of
-   harness/c06law.py on the implementation): for a table with a single per-element event and no
+(* The special case proved first, kept under its name (the full statement for every table is
+   C06_step_law below): for a table with a single per-element event and no
    fixed-rate event, what a timestep selects is distributed as the image of one independent
    Bernoulli(p) trial per element of the locus, hence its size is binomial. *)
 Theorem C06_step_law_partial : forall W (tb : table W) (s : st W) x,
@@ -245,6 +246,96 @@ Example C06_step_law_partial_example :
   let x := (0%nat, 0%nat, {| ev_elem := true; ev_locus := 0; ev_p := 1#2; ev_prog := 0 |}) in
   per_element ex_single = [x] /\ fixed_rate ex_single = [] /\ active (loci s) x = true /\
   prob (fun sel => Nat.eqb 2 (length sel)) (select_dist ex_single s) == 3 # 8.
+Proof. cbv zeta. repeat split; vm_compute; reflexivity. Qed.
+
+(* ---------------------------------------------------------------- the one-step law, every table *)
+(* The full statement.  select_dist_full scripts the whole oracle of a timestep's selection: one
+   independent trial per element per per-element event (in the order the variates are consumed), then
+   the fixed-rate part call by call (fixed_script: one trial per active event and, on success, a rank
+   uniform over the locus as it is).  For EVERY table - any number of per-element and fixed-rate events
+   on any loci, arbitrary user programs - the selection is distributed as the product law: the
+   independent per-event selections (each element of the locus kept iff its own Bernoulli(p) trial
+   succeeds) concatenated in registration order, followed by the independent fixed-rate events, each at
+   most once with its probability on a uniformly drawn element.  Probabilities in [0, 2) (the scripted
+   success value 0 and failure value 2 then decide every comparison r <= p as intended). *)
+Theorem C06_step_law : forall W (tb : table W) (s : st W),
+  probs_ok (per_element tb) -> probs_ok (fixed_rate tb) ->
+  forall P, prob P (select_dist_full tb s) ==
+            prob P (bind (selected_all (loci s) (per_element tb))
+                         (fun a => bind (fixed_all (loci s) (fixed_rate tb)) (fun b => ret (a ++ b)))).
+Proof. exact (@select_dist_full_law). Qed.
+
+(* the definitions, unfolded so that they can be read here *)
+Theorem C06_step_law_unfold : forall W (tb : table W) (s : st W) lc x evs,
+  select_dist_full tb s =
+    bind (patterns (probs_of (loci s) (per_element tb))) (fun m =>
+      bind (fixed_script (loci s) (fixed_rate tb)) (fun md =>
+        ret (fst (tranche tb (set_oracle (rands_of (m ++ fst md)) (lns s) (snd md) s))))) /\
+  probs_of lc (x :: evs) = repeat (ev_p (snd x)) (length (block lc x)) ++ probs_of lc evs /\
+  selected_all lc (x :: evs) =
+    bind (selected_dist x (ev_p (snd x)) (block lc x)) (fun a => bind (selected_all lc evs) (fun b => ret (a ++ b))) /\
+  fixed_all lc (x :: evs) =
+    (if active lc x then
+       bind (trial (ev_p (snd x))) (fun b : bool =>
+         if b then bind (uniform (length (lookup lc x))) (fun k =>
+                   bind (fixed_all lc evs) (fun r => ret ((x, nth k (lookup lc x) (EN 0)) :: r)))
+         else fixed_all lc evs)
+     else fixed_all lc evs) /\
+  (forall els p, selected_dist x p els = bind (masks (length els) p) (fun m => ret (map (pair x) (pick m els)))) /\
+  (forall n, uniform n = map (fun k => (k, 1 / qn n)) (seq 0 n)) /\
+  (probs_ok evs <-> forall y, In y evs -> 0 <= ev_p (snd y) /\ ev_p (snd y) < 2).
+Proof. intros. do 6 (split; [reflexivity|]). split; intros H; exact H. Qed.
+
+(* without fixed-rate events (all shipped compartmented models) the law of select_dist *)
+Theorem C06_step_law_elements : forall W (tb : table W) (s : st W),
+  fixed_rate tb = [] -> probs_ok (per_element tb) ->
+  forall P, prob P (select_dist tb s) == prob P (selected_all (loci s) (per_element tb)).
+Proof. exact (@select_dist_all). Qed.
+
+(* consequences of the product law.  For an event that eqx singles out, wherever it stands among any
+   other events: the number of its elements selected in one step is binomial(|locus|, p) ... *)
+Theorem C06_count_binomial : forall eqx lc evs1 x evs2 k,
+  eqx x = true -> (forall y, In y (evs1 ++ evs2) -> eqx y = false) ->
+  prob (fun sel => Nat.eqb k (count_for eqx sel)) (selected_all lc (evs1 ++ x :: evs2)) ==
+  qn (binom (length (block lc x)) k) * qpow (ev_p (snd x)) k * qpow (1 - ev_p (snd x)) (length (block lc x) - k).
+Proof. exact selected_all_count. Qed.
+
+(* ... and an active fixed-rate event selects an element with feature Q with probability
+   p * #{such elements of its locus} / |locus|: it happens with probability p, on a uniform element *)
+Theorem C06_fixed_rate_law : forall eqx Q lc f1 x f2,
+  eqx x = true -> (forall y, In y (f1 ++ f2) -> eqx y = false) -> active lc x = true ->
+  prob (hit eqx Q) (fixed_all lc (f1 ++ x :: f2)) ==
+    ev_p (snd x) * (qn (length (filter Q (lookup lc x))) / qn (length (lookup lc x))) /\
+  prob (hit eqx (fun _ => true)) (fixed_all lc (f1 ++ x :: f2)) == ev_p (snd x).
+Proof.
+  intros eqx Q lc f1 x f2 Hx Hn Ha. split.
+  - exact (fixed_all_hit eqx Q lc f1 x f2 Hx Hn Ha).
+  - exact (fixed_all_fires eqx lc f1 x f2 Hx Hn Ha).
+Qed.
+
+(* both laws have total mass 1 *)
+Theorem C06_laws_are_distributions : forall lc evs,
+  mass (selected_all lc evs) == 1 /\ mass (fixed_all lc evs) == 1.
+Proof. intros lc evs. split; [apply mass_selected_all | apply mass_fixed_all]. Qed.
+
+(* non-vacuity: two per-element events (p = 1/2 on a locus of two, p = 1/4 on a locus of one) and one
+   fixed-rate event (p = 1/3 on the locus of two); both sides of C06_step_law computed *)
+Definition ex_full : table unit :=
+  {| t_maxtime := 2; t_loci := [(0%nat, [EN 1; EN 2]); (0%nat, [EN 7])];
+     t_procs := [{| p_events := [ {| ev_elem := true; ev_locus := 0; ev_p := 1#2; ev_prog := 0 |};
+                                  {| ev_elem := true; ev_locus := 1; ev_p := 1#4; ev_prog := 0 |};
+                                  {| ev_elem := false; ev_locus := 0; ev_p := 1#3; ev_prog := 0 |} ]; p_setup := [] |}];
+     t_progs := [static []]; t_world := tt; t_equil := fun _ _ => false |}.
+
+Example C06_step_law_example :
+  let s := setup_state ex_full [] [] [] in
+  length (per_element ex_full) = 2%nat /\ length (fixed_rate ex_full) = 1%nat /\
+  forallb (fun x => Qle_bool 0 (ev_p (snd x)) && negb (Qle_bool 2 (ev_p (snd x)))) (per_element ex_full ++ fixed_rate ex_full) = true /\
+  prob (fun sel => Nat.eqb 2 (length sel)) (select_dist_full ex_full s) == 17 # 48 /\
+  prob (fun sel => Nat.eqb 2 (length sel))
+       (bind (selected_all (loci s) (per_element ex_full))
+             (fun a => bind (fixed_all (loci s) (fixed_rate ex_full)) (fun b => ret (a ++ b)))) == 17 # 48 /\
+  mass (select_dist_full ex_full s) == 1.
 Proof. cbv zeta. repeat split; vm_compute; reflexivity. Qed.
 
 (* The shipped SIR model (Model/Compart.v, the table of harness/compart_coq.py; I = 1, R = 2, S = 3),
